@@ -1,7 +1,7 @@
 ------------------------------- MODULE AbmfMC -------------------------------
 (* All sequences of up to MaxSteps credit-control requests over a few accounts, an unknown
    subscriber and an unknown rating group, with boundary amounts up to 2^63-1 (Big). *)
-EXTENDS Abmf, Json
+EXTENDS Abmf, Json, TLCExt
 
 CONSTANTS Keys,        \* existing accounts
           UnknownKeys, \* keys with no document
@@ -17,6 +17,14 @@ Init == /\ \E f \in [Keys -> Balances] :
               /\ hist = << [a |-> "setup", accts |-> [k \in Keys |-> f[k]]] >>
         /\ flags = {}
 
+\* structural signature of a step (for the runner's path selection): which branch served the request and how
+\* the balance related to the amount
+StepSig(d, c, r) ==
+  ToString(<<c.action, c.type,
+             IF c.key \in DOMAIN d
+               THEN <<"known", MCmp(c.amt, d[c.key].mag), d[c.key].mag = <<>>, SIsNeg(d[c.key]), d[c.key] # r.db[c.key]>>
+               ELSE <<"unknown", c.key>> >>)
+
 Step ==
   \E k \in Keys \cup UnknownKeys, act \in ActionSet, ty \in TypeSet, amt \in Amounts :
      LET n == Len(hist) - 1
@@ -24,11 +32,15 @@ Step ==
          r == HandleCCR(db, c)
      IN /\ db' = r.db
         /\ flags' = Failing(db, c, r.db, r.ans)
-        /\ hist' = Append(hist, [a |-> "ccr", key |-> k, action |-> act, type |-> ty, num |-> n, sid |-> c.sid, amt |-> amt])
+        /\ hist' = Append(hist, [a |-> "ccr", key |-> k, action |-> act, type |-> ty, num |-> n, sid |-> c.sid, amt |-> amt,
+                                 sig |-> StepSig(db, c, r)])
 
 Next == Len(hist) - 1 < MaxSteps /\ Step
 Spec == Init /\ [][Next]_vars
 View == <<db, flags, Len(hist)>>
+Fp(v) == <<TLCFP(v), TLCFP(<<v, 1>>)>>
+EmitEdge == PrintT(<<"VF-EDGE", ToJson([s |-> Fp(View), d |-> Fp(View'), step |-> hist'[Len(hist')],
+                                        setup |-> IF Len(hist) = 1 THEN hist[1] ELSE [a |-> "-"]])>>)
 EmitBehaviour == IF RandomElement(1..EmitOneIn) = 1 THEN PrintT(<<"VF-BEH", ToJson(hist')>>) ELSE TRUE
 InvClauses == flags = {} \/ (PrintT(<<"VF-CEX", ToJson(hist)>>) /\ FALSE)
 \* balances stored after a reservation are never negative when they were not negative before
